@@ -538,6 +538,10 @@ def r2q(R, check=False, tol=100):
     nm = np.linalg.norm(kv)
     if abs(nm) < tol * _eps:
         return eye()
+    elif qs >= 0.5:
+        # sqrt(1 - qs^2) cannot resolve rotation angles below ~2e-8; with a well
+        # conditioned scalar part take the vector part from R - R' = 4 s [v]x
+        return np.r_[qs, ks / (4 * qs)]
     else:
         v = (math.sqrt(max(0.0, 1.0 - qs ** 2)) / nm) * kv
         if qs < 0.5:
